@@ -176,6 +176,9 @@ pub trait Rig {
     fn copy_state(&mut self, st: &St) -> St;
     /// bump the transformation id without changing the map (re-derivation path)
     fn reinstall(&mut self, spec: &TransSpec);
+    /// Run the initial step-size search (`stepsize::Strategy::init`) at `position` with the given
+    /// (scripted) momentum; afterwards `step()` is the step size it chose.
+    fn stepsize_search(&mut self, settings: nuts_rs::StepSizeSettings, position: &[f64], v: &[f64]) -> Result<(), String>;
 }
 
 pub struct RigImpl<T: Transformation<M>> {
@@ -235,6 +238,17 @@ macro_rules! rig_common {
         }
         fn copy_state(&mut self, st: &St) -> St {
             self.ham.copy_state(&mut self.math, st)
+        }
+        fn stepsize_search(&mut self, settings: nuts_rs::StepSizeSettings, position: &[f64], v: &[f64]) -> Result<(), String> {
+            let mut strategy = verif::StepSizeStrategy::new(settings);
+            let old = self.math.scripted.replace(v.to_vec());
+            let mut rng = ScriptRng::new(&[]);
+            let mut opts = NutsOptions::default();
+            let r = strategy
+                .init(&mut self.math, &mut opts, &mut self.ham, position, &mut rng)
+                .map_err(|e| format!("{e}"));
+            self.math.scripted = old;
+            r
         }
     };
 }
